@@ -16,7 +16,7 @@ from harness.docs import C1
 def worker(kp, job):
     seed, idx = job
     rng = random.Random(seed * 104729 + idx)
-    g = docs.gen_doc(rng, hidden_barlines=(idx % 5 == 0))
+    g = docs.gen_doc(rng, hidden_barlines=(idx % 5 == 0), early_end=(0.25 if idx % 4 == 1 else 0.0))
     if idx % 7 == 0:
         # separators inside non-note cells (finding K3)
         rows = g.rows()
